@@ -77,7 +77,9 @@ def start_bad(kind):
     if kind == 'refused':
         s = socket.socket(); s.bind(('127.0.0.1', 0)); port = s.getsockname()[1]; s.close()
         return '127.0.0.1:%d' % port, None
-    if kind == 'silent': srv = P.Server(P.RawServer([], then='stall'), stall_limit=3.0)
+    if kind == 'ssh1-retry-badcrc': srv = P.Server(P.Ssh1OnlyBroken('badcrc'), stall_limit=3.0)
+    elif kind == 'ssh1-retry-closed': srv = P.Server(P.Ssh1OnlyBroken('close'), stall_limit=3.0)
+    elif kind == 'silent': srv = P.Server(P.RawServer([], then='stall'), stall_limit=3.0)
     elif kind == 'early-close': srv = P.Server(P.RawServer([b'SSH-2.0-OpenSSH_8.0\r\n'], then='close'))
     elif kind == 'bad-blocksize': srv = P.Server(P.RawServer([b'SSH-2.0-OpenSSH_8.0\r\n', b'\x00\x00\x00\x0d\x04' + bytes(20)], then='close'))
     elif kind == 'bad-crc':
@@ -95,7 +97,7 @@ def start_bad(kind):
     return '127.0.0.1:%d' % srv.port, srv
 
 
-BAD = ['unresolvable', 'refused', 'refused-port-65535', 'refused-port-1', 'silent', 'early-close', 'bad-blocksize', 'bad-crc', 'truncated-kexinit', 'zero-payload', 'garbage-banner', 'probe-garbage']
+BAD = ['unresolvable', 'refused', 'refused-port-65535', 'refused-port-1', 'silent', 'early-close', 'bad-blocksize', 'bad-crc', 'truncated-kexinit', 'zero-payload', 'garbage-banner', 'probe-garbage', 'ssh1-retry-badcrc', 'ssh1-retry-closed']
 
 
 def run(ctx):
